@@ -212,6 +212,9 @@ def raise (s : State) (f : Flag) : State :=
 def raiseIf (s : State) (f : Flag) (b : Bool) : State := if b then raise s f else s
 
 def setAlk (s : State) (l : List Nat) : State := { s with alk := l }
+/-- the list of clients remembered by rfbNewFramebuffer is a local of the calling thread; only the
+application thread calls it -/
+def setAlkT (s : State) (t : Tid) (l : List Nat) : State := if t = .app then setAlk s l else s
 def setN (s : State) (n : Nat) : State := { s with n := n }
 def setAapi (s : State) (a : Api) : State := { s with aapi := a }
 def setLisDown (s : State) : State := { s with lisDown := true }
@@ -395,7 +398,7 @@ def bodySucc (s : State) (t : Tid) (p : Proc) (k : Nat) (c : Nat) : List (Lbl ×
       (.lock .R c, setC (incRef s1 t c) t (.body p 1 c))
   | .newfb, 1 => [(.unlock .R c, setC (doUnlock s t .R c) t (.body p 2 c))]
   | .newfb, _ =>
-    (doLock s t .S c).toList.map fun s1 => (.lock .S c, setC (setAlk s1 (s1.alk ++ [c])) t (nextIter p c))
+    (doLock s t .S c).toList.map fun s1 => (.lock .S c, setC (setAlkT s1 t (s1.alk ++ [c])) t (nextIter p c))
   | .shutdown, 0 =>
     let s1 := touch s c
     [(.tau, setC s1 t (if (s1.cl c).sockOpen then .body p 1 c else nextIter p c))]
@@ -418,7 +421,7 @@ def nfSucc (s : State) (t : Tid) (st : NSt) (i : Nat) : List (Lbl × State) :=
   | .lockC =>
     (doLock s t .C 0).toList.map fun s1 =>
       (.lock .C 0, setC s1 t (if s1.alk.length = 0 then .nf .unlockC 0 else .nf .lockU 0))
-  | .unlockC => [(.unlock .C 0, setC (setAlk (doUnlock s t .C 0) []) t (finished t))]
+  | .unlockC => [(.unlock .C 0, setC (setAlkT (doUnlock s t .C 0) t []) t (finished t))]
   | _ =>
     match s.alk[i]? with
     | none => []
@@ -500,7 +503,8 @@ def callerSucc (s : State) (t : Tid) : List (Lbl × State) :=
           [(Lbl.call .newclient, setC (setAapi s .newclient) .app (.iter .count .lockL none none)),
            (Lbl.call .shutdown, setC (setAapi s .shutdown) .app .sd0)]) ++
         ([Api.mark, .copy, .bell, .cut, .cututf8, .iter, .newfb].map fun a =>
-          (Lbl.call a, setC (setAapi s a) .app (.iter (procOfApi a) .lockL none none))) ++
+          -- (the list of remembered clients of rfbNewFramebuffer is a fresh local of the call)
+          (Lbl.call a, setC (setAlkT (setAapi s a) .app []) .app (.iter (procOfApi a) .lockL none none))) ++
         (if s.lisDown then [(Lbl.call .cleanup, setC (setAapi s .cleanup) .app (.iter .cleanup .lockL none none))] else []))
     | .lis =>
       -- socketState is read at the top of the loop only: a connection may still be accepted after
@@ -544,8 +548,9 @@ def inpSucc (s : State) (c : Nat) : List (Lbl × State) :=
     -- `while (cl->state != RFB_SHUTDOWN) { if (cl->sock == -1) break; select ... pipe => break`
     (if (s.cl c).st = .shutdown || !(s.cl c).sockOpen || (s.cl c).pipeNote then [(.tau, setI (touch s c) c .x0)] else []) ++
     -- the handshake code stores the next protocol state (whatever the current one is)
-    (if (s.cl c).st = .hs then [] else [(.st c .hs, updCl (touch s c) c (fun x => { x with st := .hs }))]) ++
-    (if (s.cl c).st = .normal then [] else [(.st c .normal, updCl (touch s c) c (fun x => { x with st := .normal }))]) ++
+    (if (s.cl c).st = .hs then [] else [(.st c .hs, setI (updCl (touch s c) c (fun x => { x with st := .hs })) c .sel)]) ++
+    (if (s.cl c).st = .normal then [] else
+      [(.st c .normal, setI (updCl (touch s c) c (fun x => { x with st := .normal })) c .sel)]) ++
     ((doLock s t .O c).toList.map fun s1 => (.lock .O c, setI s1 c .w1)) ++
     ((doLock s t .U c).toList.flatMap fun s1 =>
       [(.lock .U c, setI s1 c .f1), (.lock .U c, setI s1 c .e1), (.lock .U c, setI s1 c (.k .sigU))])
@@ -615,11 +620,19 @@ def outSucc (s : State) (c : Nat) : List (Lbl × State) :=
   | .decUnlock => [(.unlock .R c, setO (doUnlock s t .R c) c .top)]
   | .exiting => [(.exit, setO s c .exited)]
 
+/-- the listener thread only ever runs rfbNewClient (counting loop, creation, failed creation) -/
+def lisPc : CPc → Bool
+  | .notStarted | .idle | .done => true
+  | .iter p _ _ _ => p == .count
+  | .body p _ _ => p == .count
+  | .cr _ _ | .gone _ _ => true
+  | _ => false
+
 /-- all successors of thread `t` in state `s` (empty: the thread is blocked or has terminated) -/
 def succ (s : State) (t : Tid) : List (Lbl × State) :=
   match t with
   | .app => callerSucc s .app
-  | .lis => callerSucc s .lis
+  | .lis => if lisPc s.lpc then callerSucc s .lis else []
   | .inp c => inpSucc s c
   | .out c => outSucc s c
 
